@@ -76,3 +76,32 @@ func VerifC19_AttrPatternRoundTrip() {
 	verifAssert(unescapeAttrPattern(esc) == name, "unescape(escape(pattern)) is the pattern")
 	verifAssert(escapeAttrPattern(unescapeAttrPattern(esc)) == esc, "escaping is stable under re-reading (re-running track changes nothing)")
 }
+
+// VerifC19_EscapeFilenameConcrete: the same oracle with two fixed plain runs,
+// so that every byte of the name is concrete and any implementation style of
+// the escaping (byte-wise scanning included) is followed exactly: every
+// sequence of <=3/4 atoms over the special characters and the runs "a", "b.c".
+func VerifC19_EscapeFilenameConcrete() {
+	atoms := append(append([]string{}, verifSpecials...), "a", "b.c")
+	n := 1 + verifChoose("atoms", verifBound("concrete.atoms", 3, 4))
+	name, want := "", ""
+	hasTab, bang, quote := false, false, false
+	for k := 0; k < n; k++ {
+		atom := atoms[verifChoose("atom", len(atoms))]
+		name += atom
+		want += verifSpecEscape(atom, k == 0)
+		hasTab = hasTab || atom == "\t"
+		bang = bang || (k == 0 && atom == "!")
+		quote = quote || (k == 0 && atom == "\"")
+	}
+	verifKnown("C19-F11a-tab-in-filename", hasTab)
+	verifKnown("C19-F11b-leading-exclamation", bang)
+	verifKnown("C19-F11c-leading-double-quote", quote)
+	got := escapeGlobCharacters(name)
+	verifCover("escaped-concrete")
+	verifAssert(got == want, "the written pattern escapes exactly the special characters of the name")
+	if !hasTab {
+		esc := escapeAttrPattern(name)
+		verifAssert(unescapeAttrPattern(esc) == name, "unescape(escape(pattern)) is the pattern")
+	}
+}
